@@ -35,6 +35,7 @@ void World::expect(int c, const Exp &e) {
 void World::feed_input(const Input &in) {
 	dbg("feed input t=%d c=%d fd=%d %s %.100s", in.t, in.c, in.fd, in.why.c_str(), in.text.c_str());
 	trace.tag("in"); trace.u64(in.t); trace.u64((uint64_t)in.c); trace.str(in.text);
+	if (mode == "exact") resolve_silent_decisions();
 	if (mode == "exact" && model.decision_pending()) {
 		// the previous request's outcome was never signalled
 		violation("C02", "missing-response", "no answer was produced for a request whose outcome the daemon had to signal before processing further input");
@@ -130,6 +131,7 @@ void World::turn_end() {
 	batch.clear();
 	for (auto &cl : clients) cl.write_attempts_turn = 0;
 	if (mode == "exact") {
+		resolve_silent_decisions();
 		if (model.decision_pending()) violation("C02", "missing-response", "the daemon returned to its event loop without signalling the outcome of a request");
 		check_queues_empty("when the daemon returned to its event loop");
 	}
@@ -259,6 +261,13 @@ bool World::match_close(Client &cl) {
 		if (cl.closing) { cl.expq.clear(); return true; }
 		if (!feed_one_pending() && !feed_next_batch_error()) return false;
 		if (cl.closing) { cl.expq.clear(); return true; }
+	}
+}
+
+void World::resolve_silent_decisions() {
+	for (int d : model.silent_decisions()) {
+		model.resolve_decision(d, model.decisions[d].silent_accept);
+		for (auto &c2 : clients) for (size_t i = 0; i < c2.expq.size();) { if (c2.expq[i].decision == d && c2.expq[i].optional) c2.expq.erase(c2.expq.begin() + i); else i++; }
 	}
 }
 
